@@ -11,7 +11,32 @@ fn main() {
     let path = path.as_str();
     println!("cargo:rerun-if-changed={path}");
     println!("cargo:rerun-if-changed=build.rs");
-    let src = std::fs::read_to_string(path).expect("read /repo/src/abi.rs");
+    let mut src = std::fs::read_to_string(path).expect("read /repo/src/abi.rs");
+    // constants produced by macros do not appear as `pub const` lines in the file: take the module as the compiler sees
+    // it after macro expansion (rustc -Zunpretty=expanded; a tenth of a second) and fall back to the file text
+    if let Ok(o) = std::process::Command::new("rustc")
+        .env("RUSTC_BOOTSTRAP", "1")
+        .args(["-Zunpretty=expanded", "--edition", "2021", "--crate-type", "lib", "--crate-name", "elf"])
+        .args(["--cfg", "feature=\"std\"", "--cfg", "feature=\"alloc\"", "--cfg", "feature=\"to_str\""])
+        .arg(format!("{repo}/src/lib.rs"))
+        .output()
+    {
+        if o.status.success() {
+            let text = String::from_utf8_lossy(&o.stdout);
+            if let Some(a) = text.find("\npub mod abi {") {
+                let rest = &text[a + 1..];
+                let end = rest.find("\n}\n").unwrap_or(rest.len());
+                let expanded = &rest[..end];
+                if expanded.matches("pub const ").count() >= src.matches("pub const ").count() {
+                    src = expanded.to_string();
+                    println!("cargo:rustc-env=ELFMON_ABI_SOURCE=expanded");
+                }
+            }
+        }
+    }
+    for f in ["lib.rs"] {
+        println!("cargo:rerun-if-changed={repo}/src/{f}");
+    }
     let mut out = String::from("pub static ABI_CONSTS: &[(&str, &str, i128)] = &[\n");
     let mut n = 0;
     let mut names: Vec<String> = Vec::new();
